@@ -48,6 +48,20 @@ def has_empty_range(spec):
     return False
 
 
+def only_empty_ranges(spec):
+    """Does some range list of the history (initial or of a step) consist ONLY of empty ranges?"""
+    f = spec.split(" ")
+    if len(f) != 5:
+        return False
+    rs = [f[3]] + [st.split(",")[3] for st in f[4].split("|") if st.count(",") == 3]
+    for r in rs:
+        if r == "-":
+            continue
+        if all(ab.split(":")[0] == ab.split(":")[1] for ab in r.split(";")):
+            return True
+    return False
+
+
 def splits_character(spec):
     """Does some included-range boundary of the history fall INSIDE a UTF-8 multi-byte sequence
     of the text it is applied to?"""
@@ -289,6 +303,8 @@ def run(ctx):
                   "column_dependent_candidate": kv.get("coldep") == "1",
                   # … or some included range of the history so far is EMPTY (a == b)
                   "empty_included_range": has_empty_range(spec),
+                  # … some range list of the history consists ONLY of empty ranges (nothing is included)
+                  "only_empty_ranges": only_empty_ranges(spec),
                   # … or some included-range boundary splits a multi-byte character
                   "range_splits_character": splits_character(spec),
                   # … or a range difference starts at/after the end of the OLD tree's last included range
